@@ -297,8 +297,66 @@ func (g bgen) wrap(st string) string {
 	return st
 }
 
+// arithmetic: every operator of expand/arith.go over hostile operands (the
+// edge list above names single expressions; this arm composes them)
+var arithConsts = []string{"0", "1", "-1", "2", "3", "7", "63", "64", "65", "-64", "010", "0x1F", "2#101", "9223372036854775807", "-9223372036854775808", "9223372036854775808", "4294967296"}
+var arithVars = []string{"x", "y", "z", "big", "min", "n", "u", "a[0]", "a[1]", "a[-1]", "a[x]", "m[k]", "s"}
+var arithBin = []string{"+", "-", "*", "/", "%", "**", "<<", ">>", "<", ">", "<=", ">=", "==", "!=", "&", "|", "^", "&&", "||", ","}
+var arithAssign = []string{"=", "+=", "-=", "*=", "/=", "%=", "<<=", ">>=", "&=", "|=", "^="}
+
+const arithPrelude = "x=1 y=-1 z=0 big=9223372036854775807 min=-9223372036854775808 s=str; a=(1 -2 3); declare -A m=([k]=5)\n"
+
+func (g bgen) arithExpr(depth int) string {
+	k := g.n(0, 11, "arithkind")
+	if depth >= 3 && k > 2 {
+		k = g.n(0, 2, "arithleaf")
+	}
+	switch k {
+	case 0:
+		return g.pick("arithconst", arithConsts)
+	case 1:
+		return g.pick("arithvar", arithVars)
+	case 2:
+		return g.pick("arithdollar", []string{"$x", "${y}", "$z", "$big", "${a[1]}", "$u", "$(echo 2)", "\"$y\""})
+	case 3:
+		return g.pick("arithunary", []string{"-", "~", "!", "+", "- -", "-~"}) + g.arithExpr(depth+1)
+	case 4:
+		v := g.pick("arithvar", arithVars)
+		return g.pick("arithincdec", []string{"++" + v, "--" + v, v + "++", v + "--"})
+	case 5, 6, 7:
+		return g.arithExpr(depth+1) + " " + g.pick("arithbin", arithBin) + " " + g.arithExpr(depth+1)
+	case 8, 9:
+		return g.pick("arithvar", arithVars) + " " + g.pick("arithassign", arithAssign) + " " + g.arithExpr(depth+1)
+	case 10:
+		return g.arithExpr(depth+1) + " ? " + g.arithExpr(depth+1) + " : " + g.arithExpr(depth+1)
+	default:
+		return "(" + g.arithExpr(depth+1) + ")"
+	}
+}
+
+func (g bgen) arithStmt() string {
+	e := g.arithExpr(0)
+	switch g.n(0, 6, "arithctx") {
+	case 0, 1:
+		return arithPrelude + "echo $((" + e + ")) $x $y ${a[@]}"
+	case 2:
+		return arithPrelude + "((" + e + ")); echo $? $x"
+	case 3:
+		return arithPrelude + "let " + shq(e) + "; echo $?"
+	case 4:
+		return arithPrelude + "a[" + e + "]=v; echo ${a[" + e + "]} ${s:" + e + "}"
+	case 5:
+		return arithPrelude + "declare -i n; n=" + shq(e) + "; echo $n; [[ " + shq(e) + " -eq 1 ]]"
+	default:
+		return arithPrelude + "echo ${a[@]:" + e + ":" + g.arithExpr(2) + "} ${@:" + e + "}"
+	}
+}
+
 func (g bgen) stmt(classes *[]string) string {
-	switch g.n(0, 9, "stmtkind") {
+	switch g.n(0, 11, "stmtkind") {
+	case 10, 11:
+		*classes = append(*classes, "arith")
+		return g.wrap(g.arithStmt())
 	case 0, 1, 2, 3:
 		return g.wrap(g.pick("edge", edgeStmts))
 	default:
